@@ -213,11 +213,11 @@ func (l *WAL) Open() error {
 			os.Remove(lastSegment)
 			segments = segments[:len(segments)-1]
 		} else {
-			fd, err := os.OpenFile(lastSegment, os.O_RDWR, 0666)
+			// Append mode: the cache loader, which runs after this, truncates a corrupt
+			// tail off the segment; writes must then go to the new end of the file, not
+			// to the offset the file ended at when it was opened here.
+			fd, err := os.OpenFile(lastSegment, os.O_RDWR|os.O_APPEND, 0666)
 			if err != nil {
-				return err
-			}
-			if _, err := fd.Seek(0, io.SeekEnd); err != nil {
 				return err
 			}
 			l.currentSegmentWriter = NewWALSegmentWriter(fd)
